@@ -37,7 +37,7 @@ def run(ctx):
         return None
     st = Stream("prefixpath", lines, oracle=pp_oracle,
                 nontrivial=lambda i, l, o: True,
-                desc="PrefixFS.prefixPath for %d prefixes x all byte strings over {/ . a b C3 A4} up to length %d plus random structured names; oracle: result is cleaned and component-wise within the cleaned prefix" % (len(PREFIXES), L),
+                desc="PrefixFS.prefixPath for %d prefixes x all byte strings over {/ . a b C3 A4 \\} up to length %d plus random structured names; oracle: result is cleaned and component-wise within the cleaned prefix" % (len(PREFIXES), L),
                 exhaustive=True)
     results.append(run_t1_stream("C05", st, model_ok))
 
